@@ -877,8 +877,10 @@ Proof.
   set (zombie := status_eqb (s_status st) RUNNING && (s_plan_pending st || (is_nil (s_tasks st) && is_nil (children s i)))).
   destruct (negb (start_stage_fresh (s_status st)) && negb zombie); [constructor|].
   destruct (should_skip st); [keeps_list tt|].
+  destruct (milestone_expired s st); [keeps_list tt|].
   destruct (mutex_blocked s i st); [keeps_list tt|].
   destruct (status_eqb (s_status st) NOT_STARTED && choice_claimed s i st); [keeps_list tt|].
+  destruct (y_expired (s_syn st)); [keeps_list tt|].
   set (m := match s_mutex st with Some k0 => acquire_claim s true k0 i true | None => (true, w_claims s) end).
   destruct (fst m); cbn [negb]; [|keeps_list tt].
   set (c := match s_choice st with Some g => acquire_claim (with_claims (snd m) s) false g i false | None => (true, snd m) end).
